@@ -46,13 +46,26 @@ def string_pieces(e):
         return [x[1]["str"]], []
     if x[0] == "call" and x[1].fn.startswith("core::fmt::Arguments::<'a>::new"):
         tmpl = strip(x[2][0])
-        lits = []
-        if tmpl[0] == "const" and "bytes" in tmpl[1]:
-            lits = [p[1] for p in decode_format_pieces(tmpl[1]["bytes"]) if p[0] == "lit"]
+        pieces = decode_format_pieces(tmpl[1]["bytes"]) if tmpl[0] == "const" and "bytes" in tmpl[1] else []
         args = []
         for y in walk(x[2][1]) if len(x[2]) > 1 else []:
             if y[0] == "call" and y[1].fn.startswith("core::fmt::rt::Argument::<'_>::new_"):
                 args.append(strip(y[2][0]))
+        # an argument that is itself a string literal (a `suffix: &str` parameter of a spliced helper, a named const) is text too:
+        # fold it into the literal pieces at its position
+        lits, k = [], 0
+        simple = all(p[0] == "lit" or p[1] == 0xc0 for p in pieces)
+        for p in pieces:
+            if p[0] == "lit":
+                lits.append(p[1])
+            elif simple and k < len(args):
+                a = q.peel(args[k])
+                k += 1
+                if a[0] == "const" and "str" in a[1]:
+                    if lits and pieces and pieces[pieces.index(p) - 1][0] == "lit" and pieces.index(p) > 0:
+                        lits[-1] = lits[-1] + a[1]["str"]
+                    else:
+                        lits.append(a[1]["str"])
         return lits, args
     if x[0] == "call" and x[1].fn.startswith("core::fmt::Arguments::<'a>::from_str"):
         return q.const_strs(x), []
